@@ -165,6 +165,18 @@ def explore(run, binp, cases):
                 run.violation(f"shape:{lines[ci]}:0", f"after parsing {u!r} the offsets do not partition the buffer (state {raw})",
                               lines=[lines[ci]])
                 break
+            real_origin = None
+            if getters.count(",") == 8:
+                getters, _, real_origin = getters.rpartition(",")
+            # get_origin reads `type`, which the raw scheme editors leave stale: not compared behind one of them
+            stale_type = any(o[0] in RAW_SCHEME for o in ops[:si])
+            if (sh.get("shape") == "1" and real_origin is not None and not stale_type and sh.get("origin") not in (None, "need-idna")
+                    and sh.get("origin") != real_origin):
+                run.violation(f"origin:{lines[ci]}:{si}", f"{u!r} after {ops[:si]}: get_origin() = {real_origin}, the model of "
+                              f"url_aggregator::get_origin on the same buffer and offsets gives {sh.get('origin')}", lines=[lines[ci]])
+                break
+            if sh.get("origin") not in (None, "need-idna") and not stale_type and real_origin is not None:
+                stats["origins_compared"] = stats.get("origins_compared", 0) + 1
             if sh.get("shape") == "1" and getters and sh.get("getters") != getters:
                 run.violation(f"getters:{lines[ci]}:{si}", f"{u!r} after {ops[:si]}: getters {getters} are not the slices the offsets "
                               f"delimit ({sh.get('getters')})", lines=[lines[ci]])
